@@ -6,6 +6,8 @@ CONSTANTS
  FixBreakOnError = TRUE
  FixSentinel = FALSE
  FixLfsFail = TRUE
+ DevStaleCache = FALSE
+ DevTruncAccepted = FALSE
 INIT Init
 NEXT Next
 INVARIANTS C33_CleanCycleDelivers
